@@ -72,6 +72,16 @@ func SetPortRange(lo, hi int) {
 	portNext, portMax = lo, hi
 }
 
+// PortsLeft reports how many ports of this process's range are unused.
+func PortsLeft() int {
+	portMu.Lock()
+	defer portMu.Unlock()
+	if portNext == 0 {
+		return 1 << 20
+	}
+	return portMax - portNext
+}
+
 func allocPort() (int, error) {
 	portMu.Lock()
 	defer portMu.Unlock()
